@@ -1,5 +1,3 @@
-//go:build instrumented
-
 package engines
 
 // Engine `faultdisk` (property C09): font files are served by a simulated disk
@@ -25,7 +23,6 @@ import (
 	"github.com/go-text/typesetting/fontscan"
 	"github.com/go-text/typesetting/language"
 	"github.com/go-text/typesetting/shaping"
-	"github.com/go-text/typesetting/verifsim"
 	"golang.org/x/image/math/fixed"
 
 	"verifsim/corpus"
@@ -353,17 +350,16 @@ type fdWorld struct {
 
 // guarded runs f under the tick budget; panics and budget trips become data.
 func (w *fdWorld) guarded(what string, budget uint64, f func()) (v *kernel.Violation) {
-	verifsim.Next = verifsim.N + budget
-	verifsim.Slow = func() {
-		verifsim.Next = ^uint64(0)
+	tickArm(budget, func() {
+		tickDisarm()
 		panic(budgetPanic{})
-	}
+	})
 	var m0, m1 runtime.MemStats
 	runtime.ReadMemStats(&m0)
-	start := verifsim.N
+	start := tickCount()
 	defer func() {
-		verifsim.Next = ^uint64(0)
-		used := verifsim.N - start
+		tickDisarm()
+		used := tickCount() - start
 		w.out.Count("ticks", int64(used))
 		if r := recover(); r != nil {
 			site, where := kernel.PanicSite(3)
